@@ -10,5 +10,7 @@ Judged(r) == /\ \E i \in 1..Len(r) : r[i].k \notin {"info", "env"}
 Shapes3 == { r \in AllShapes(3, 3) : Judged(r) }
 Shapes2 == { r \in AllShapes(3, 2) : Judged(r) }
 \* without the domain restriction TLC finds the stale-lastRx history (a response delivering nothing)
+\* malformed input: one "bad" package in front of ordinary ones
+ShapesBad == { r \in UNION { [1..m -> [k : {"row", "bad", "doneF"}, n : 1..2]] : m \in 2..3 } : r[1].k = "bad" }
 ShapesAll == AllShapes(2, 2)
 =============================================================================
